@@ -31,9 +31,28 @@ def run(ctx):
         takes = [c for c in b.calls() if c.is_("core::option::Option::<T>::take") or c.is_("core::mem::take", "core::mem::replace")]
         closes = [c for c in b.calls() if c.is_trait_method("CloseValue", "close")]
         aps = [c for c in b.calls() if c.is_trait_method("EntrySink", "append")]
-        for nm, sites in (("take", takes), ("close", closes), ("append", aps)):
-            ok, why = exactly_once(b, [c.bb for c in sites])
-            ctx.check(ok, "R06.1", key + "#%s-exactly-once" % nm, loc(b), "%s is not executed exactly once on every path of the destructor: %s" % (nm, why))
+        ok, why = exactly_once(b, [c.bb for c in takes])
+        ctx.check(ok, "R06.1", key + "#take-exactly-once", loc(b), "take is not executed exactly once on every path of the destructor: %s" % why)
+
+        class S1(Sim):
+            def on_call(self_, t, bb, a, env):
+                c = t.get("callee") or {}
+                if c.get("def") == "core::option::Option::<T>::take":
+                    return [(("some", 0, 0), {"dest": ("v", "Some")}), (("none", 0, 0), {"dest": ("v", "None")})]
+                if isinstance(a, tuple) and c.get("name") == "close" and (c.get("trait") or "").endswith("CloseValue"):
+                    return [((a[0], a[1] + 1, a[2]), {})]
+                if isinstance(a, tuple) and c.get("name") == "append" and (c.get("trait") or "").endswith("EntrySink"):
+                    return [((a[0], a[1], a[2] + 1), {})]
+                return None
+        try:
+            s1 = S1(b).run(0, ("?", 0, 0), {})
+            some = [(a[1], a[2]) for _, a, _ in s1.returns if a[0] == "some"]
+            none = [(a[1], a[2]) for _, a, _ in s1.returns if a[0] == "none"]
+            # the None arm may panic (expect) or fall through doing nothing; the Some arm closes and appends exactly once
+            ctx.check(bool(some) and all(x == (1, 1) for x in some) and all(x == (0, 0) for x in none), "R06.1", key + "#close-and-append-exactly-once", loc(b),
+                      "when the entry is present the destructor closes/appends it %s time(s); without an entry %s" % (sorted(set(some)), sorted(set(none))))
+        except Budget as e:
+            ctx.bad("R06.1", key + "#budget", loc(b), str(e))
         if takes and closes and aps:
             dom = b.dominators()
             ctx.check(dominates(b, takes[0].bb, closes[0].bb, dom) and dominates(b, closes[0].bb, aps[0].bb, dom), "R06.1", key + "#take<close<append", loc(b), "order take < close < append violated")
